@@ -12,6 +12,7 @@ see byte-identical input.
 """
 import difflib
 import os
+import random
 import re
 
 from .. import core
@@ -22,7 +23,8 @@ ID = "C18"
 LEVEL = "exploration"
 RULE = ("inputs = committed regressions + every repository .gdn file + src/test_files/format inputs with their "
         "whitespace perturbed + endless seeded stream (template programs badly spaced, corpus files re-spaced / "
-        "mutated / truncated / unbalanced / with multi-line strings, non-ASCII and comments moved, lexeme soup); "
+        "mutated / truncated / unbalanced / with multi-line strings, non-ASCII and comments moved, lexeme soup; files "
+        "with 2..17 instances of one formatting trigger such as an over-long signature); "
         "distinct key = (generator class, parses or not, whether the formatter changed the text, "
         "first changed line's leading token)")
 ASSUME = ["`garden format` = format::format applied to the line-normalised file (read from src/main.rs; checked on "
@@ -47,8 +49,61 @@ def gen_cases(tier, seed):
         c["src"] = F.cli_normalize(c["src"])
         yield c
     yield {"_marker": "fixed-part", "space": "committed regressions + whole corpus"}
-    for c in F.random_cases(seed, 18, classes=CLASSES, max_len=4000, normalize=True):
+    rng = random.Random(seed * 7919 + 18)
+    for n, c in enumerate(F.random_cases(seed, 18, classes=CLASSES, max_len=4000, normalize=True)):
         yield c
+        if n % 5 == 0:
+            yield {"cls": "many_items", "src": F.cli_normalize(many_items(rng))}
+
+
+# The formatter works in passes (and re-runs itself a bounded number of times), so what it does to the k-th
+# instance of a construct can differ from what it does to the first: files with MANY instances of one trigger.
+
+_TYPES = ["Int", "String", "List<Int>", "Option<String>", "List<Option<Int>>", "Dict<List<String>>", "Result<Int, String>",
+          "(Int, String)", "Fun<(Int, Int), Bool>", "T"]
+_TRIGGERS = ["long_sig", "long_sig", "long_sig", "long_call", "bad_indent", "blank_lines", "comment_block", "long_list", "snippet"]
+
+
+def long_sig(rng, i):
+    head = rng.choice(["fun ", "fun ", "public fun ", "method ", "public method ", "external fun "])
+    name = rng.choice(["compute_the_thing", "f", "long_descriptive_function_name", "handle"]) + "_%d" % i
+    nparams = rng.choice([3, 5, 6, 7, 8, 9])
+    params = ["%s_%d: %s" % (rng.choice(["parameter", "arg", "some_value", "x"]), j, rng.choice(_TYPES)) for j in range(nparams)]
+    if head.endswith("method "):
+        params[0] = "this: " + rng.choice(["Foo", "List<T>", "String"])
+    tp = rng.choice(["", "", "<T>", "<T, U>"])
+    ret = rng.choice(["", ": " + rng.choice(_TYPES), ": " + rng.choice(_TYPES)])
+    body = rng.choice(["{}", "{ 1 }", "{\n  arg_0\n}", "{ // c\n}", "{\n  let q = 1\n  q\n}"])
+    return "%s%s%s(%s)%s %s" % (head, name, tp, ", ".join(params) + rng.choice(["", "", ","]), ret, body)
+
+
+def trigger(rng, kind, i):
+    if kind == "long_sig":
+        return long_sig(rng, i)
+    if kind == "long_call":
+        return "fun c_%d() { some_function_with_a_long_name(%s) }" % (i, ", ".join("argument_number_%d + %d" % (j, j) for j in range(rng.choice([4, 8, 12]))))
+    if kind == "bad_indent":
+        return "fun b_%d() {\n%slet x = 1\n%sif x {\n%sx\n%s}\n}" % (i, rng.choice(["", "      ", "\t"]), rng.choice(["", " ", "    "]), rng.choice(["", "  ", "\t\t"]), rng.choice(["", "   "]))
+    if kind == "blank_lines":
+        return "fun l_%d() {%s1%s}" % (i, "\n" * rng.randint(1, 5), "\n" * rng.randint(0, 4))
+    if kind == "comment_block":
+        return "%s// comment %d\n%s// more\nfun k_%d() {}" % (rng.choice(["", "  ", "\t"]), i, rng.choice(["", "    "]), i)
+    if kind == "long_list":
+        return "let v_%d = [%s]" % (i, ", ".join('"element number %d"' % j for j in range(rng.choice([5, 9, 14]))))
+    return T.snippet(rng, items=1)
+
+
+def many_items(rng):
+    k = rng.choice([2, 3, 5, 6, 7, 8, 9, 10, 13, 17])
+    kind = rng.choice(_TRIGGERS)
+    mixed = rng.random() < 0.3
+    parts = []
+    for i in range(k):
+        parts.append(trigger(rng, rng.choice(_TRIGGERS) if mixed else kind, i))
+        parts.append(rng.choice(["\n", "\n\n", "\n\n\n", "\n"]))
+        if rng.random() < 0.15:
+            parts.append(T.snippet(rng, items=1) + "\n")
+    return "".join(parts)
 
 
 # --------------------------------------------------------------------------- classification of a failure
